@@ -280,7 +280,32 @@ func runAppendOnly(c *core.Ctx) []core.Obligation {
 				return
 			}
 			if why, ok := appendOnlyExceptions[name+"|"+kind]; ok {
-				b.ok(key, c.InstrPos(at), "table: "+why)
+				// the exception holds only under the guard it was confirmed with: the bytes being
+				// rewritten were just appended in exponent form, i.e. the site is dominated by the
+				// true edge of a test `x == 'e'` on a value that is not read back from the buffer
+				guarded := false
+				for _, e := range dominatingEdges(at.Block()) {
+					bo, isB := e.ifi.Cond.(*ssa.BinOp)
+					if !isB || bo.Op != token.EQL || e.succ != 0 {
+						continue
+					}
+					if k, isK := constInt(bo.Y); isK && k == 'e' {
+						fromBuf := dependsOn(bo.X, func(v ssa.Value) bool {
+							if ia, ok := v.(*ssa.IndexAddr); ok {
+								return a.v[ia.X]
+							}
+							return false
+						})
+						if !fromBuf {
+							guarded = true
+						}
+					}
+				}
+				if guarded {
+					b.ok(key, c.InstrPos(at), "table: "+why)
+				} else {
+					b.bad(key, c.InstrPos(at), fmt.Sprintf("%s: %s below len(dst) is only sound for bytes this call appended in exponent form, but the site is no longer guarded by the format test (fmt == 'e'): a caller's prefix ending in \"e-0\" is rewritten", name, what))
+				}
 				return
 			}
 			switch {
@@ -356,9 +381,155 @@ func runAppendOnly(c *core.Ctx) []core.Obligation {
 				}
 			}
 		}
+		// growth by reslicing: b[:len(b)+E] needs E bytes of spare capacity ensured by a test on
+		// cap(b)-len(b) against the same E
+		for _, blk := range fn.Blocks {
+			for _, in := range blk.Instrs {
+				sl, ok := in.(*ssa.Slice)
+				if !ok || !a.v[sl.X] || sl.High == nil {
+					continue
+				}
+				grow, ok := growthAmount(sl.High, sl.X)
+				if !ok {
+					continue
+				}
+				any = true
+				key := mk("grow")
+				ensured := capacityEnsured(fn, sl.X, a)
+				same := false
+				for _, e := range ensured {
+					if e.equal(grow) {
+						same = true
+					}
+				}
+				switch {
+				case len(ensured) == 0:
+					b.bad(key, c.InstrPos(sl), fmt.Sprintf("%s extends the destination to len+(%s) by reslicing without ensuring spare capacity: panics (slice bounds out of range) when cap(dst)-len(dst) is smaller", name, grow))
+				case !same:
+					var es []string
+					for _, e := range ensured {
+						es = append(es, e.String())
+					}
+					b.bad(key, c.InstrPos(sl), fmt.Sprintf("%s extends the destination by %s bytes but the capacity test only ensures %v: for spare capacities in between, the reslice panics", name, grow, es))
+				default:
+					b.ok(key, c.InstrPos(sl), "growth by "+grow.String()+" bytes after a capacity test on the same amount")
+				}
+			}
+		}
+		// every return hands back the destination (a version of it), never nil or another slice
+		for _, r := range returnsOf(fn) {
+			if len(r.Results) == 0 || !isSliceType(r.Results[0].Type()) {
+				continue
+			}
+			if !a.v[r.Results[0]] {
+				any = true
+				b.bad(mk("return"), c.InstrPos(r), fmt.Sprintf("%s returns %s instead of the destination: the caller's prefix is lost (on the error path Append must still return a slice that begins with b's bytes)", name, describeValue(r.Results[0])))
+			}
+		}
 		if !any {
-			b.ok(name+"|append-only", c.FuncPos(fn), "destination written only through append and append-style callees")
+			b.ok(name+"|append-only", c.FuncPos(fn), "destination written only through append and append-style callees; every return hands back the destination")
 		}
 	}
 	return b.out
+}
+
+// sumTerms flattens a tree of additions into its non-constant terms and the constant sum.
+type sumTerms struct {
+	terms map[ssa.Value]int
+	k     int64
+}
+
+func flattenSum(v ssa.Value) sumTerms {
+	st := sumTerms{terms: map[ssa.Value]int{}}
+	var walk func(ssa.Value)
+	walk = func(v ssa.Value) {
+		if k, ok := constInt(v); ok {
+			st.k += k
+			return
+		}
+		if bo, ok := v.(*ssa.BinOp); ok && bo.Op == token.ADD {
+			walk(bo.X)
+			walk(bo.Y)
+			return
+		}
+		st.terms[v]++
+	}
+	walk(v)
+	return st
+}
+
+func (a sumTerms) equal(b sumTerms) bool {
+	if a.k != b.k || len(a.terms) != len(b.terms) {
+		return false
+	}
+	for t, n := range a.terms {
+		if b.terms[t] != n {
+			return false
+		}
+	}
+	return true
+}
+
+func (a sumTerms) String() string {
+	var parts []string
+	for t, n := range a.terms {
+		for i := 0; i < n; i++ {
+			parts = append(parts, exprString(t))
+		}
+	}
+	sort.Strings(parts)
+	if a.k != 0 || len(parts) == 0 {
+		parts = append(parts, fmt.Sprint(a.k))
+	}
+	return strings.Join(parts, "+")
+}
+
+// growthAmount: high = len(x) + E for the very slice x being resliced; returns E as a sum.
+func growthAmount(high ssa.Value, x ssa.Value) (sumTerms, bool) {
+	st := flattenSum(high)
+	for t := range st.terms {
+		if isLenOf(t, x) {
+			st.terms[t]--
+			if st.terms[t] == 0 {
+				delete(st.terms, t)
+			}
+			return st, true
+		}
+	}
+	return st, false
+}
+
+// capacityEnsured: amounts E' such that the function tests cap(b)-len(b) < E' (directly or through
+// a local holding the difference) and reallocates on that branch.
+func capacityEnsured(fn *ssa.Function, x ssa.Value, a *aoFunc) []sumTerms {
+	var out []sumTerms
+	isAvail := func(v ssa.Value) bool {
+		sub, ok := v.(*ssa.BinOp)
+		if !ok || sub.Op != token.SUB {
+			return false
+		}
+		capc, ok1 := sub.X.(*ssa.Call)
+		lenc, ok2 := sub.Y.(*ssa.Call)
+		if !ok1 || !ok2 {
+			return false
+		}
+		b1, ok1 := capc.Common().Value.(*ssa.Builtin)
+		b2, ok2 := lenc.Common().Value.(*ssa.Builtin)
+		return ok1 && ok2 && b1.Name() == "cap" && b2.Name() == "len" && a.v[capc.Common().Args[0]] && a.v[lenc.Common().Args[0]]
+	}
+	for _, blk := range fn.Blocks {
+		if n := len(blk.Instrs); n > 0 {
+			if ifi, ok := blk.Instrs[n-1].(*ssa.If); ok {
+				if bo, ok := ifi.Cond.(*ssa.BinOp); ok {
+					switch {
+					case bo.Op == token.LSS && isAvail(bo.X):
+						out = append(out, flattenSum(bo.Y))
+					case bo.Op == token.GTR && isAvail(bo.Y):
+						out = append(out, flattenSum(bo.X))
+					}
+				}
+			}
+		}
+	}
+	return out
 }
